@@ -73,6 +73,8 @@ class TicketModel:
         self.replies = []      # (marker, ticket, t)
         self.results = []      # (marker, ident or None, t)
         self.stray_removed = []  # removal events for requests never announced
+        self.refusals = []     # (ident, t): the registry did not know a request the user removed
+        self.snapshots = []    # (t, identities found in the public registry)
 
     # ---- history ------------------------------------------------------------------
     def sent(self, ident, key, ticket, typ, t, taus):
@@ -101,6 +103,14 @@ class TicketModel:
             self.stray_removed.append(t)
         else:
             r.removed_events.append(t)
+
+    def refused(self, ident, t):
+        """The user's removal at instant t was refused (request unknown to the registry)."""
+        self.refusals.append((ident, t))
+
+    def snapshot(self, t, registered):
+        """``registered``: identities found in the public registry at instant t."""
+        self.snapshots.append((t, set(registered)))
 
     # ---- verdict ------------------------------------------------------------------
     def evaluate(self, t_end: float, margin: float = 0.5):
@@ -245,6 +255,25 @@ class TicketModel:
                     out.append(('C18.removed_count', {'count': min(len(evs), 3), 'type': r.typ, 'timeout': 0}))
         if self.stray_removed:
             out.append(('C18.removed_count', {'count': min(len(self.stray_removed), 3), 'type': None}))
+
+        # --- the registry itself: a refused removal / a snapshot must agree with the live intervals
+        for ident, t in self.refusals:
+            r = self._by_ident(ident)
+            if r is None:
+                continue
+            earlier = [m for m in r.manual if m < t - EPS]
+            if not earlier and r.sent_at < t - EPS and r.deadline > t + EPS:
+                out.append(('C18.removed_time', {'when': 'early', 'observed': 'remove_request refused', 'type': r.typ}))
+        for t, registered in self.snapshots:
+            for r in self.requests:
+                status = r.live(t)
+                if status == 'yes' and r.ident not in registered:
+                    out.append(('C18.removed_time', {'when': 'early', 'observed': 'not registered', 'type': r.typ}))
+                elif status == 'no' and r.ident in registered and r.end <= t - LATE:
+                    if r.manual and r.manual_at <= r.deadline:
+                        out.append(('C18.after_remove', {'what': 'still registered', 'type': r.typ}))
+                    else:
+                        out.append(('C18.removed_count', {'count': 0, 'observed': 'still registered', 'type': r.typ}))
         return out, stats
 
 
